@@ -607,6 +607,11 @@ func VerifC14ToolCallTypes() {
 	all := c14RechunkParts(msgs, "tool call types", true)
 	if conflict {
 		vassert(all == nil, "two different types within one tool-call index are an error")
+		// deterministic also in what it reports: with both index groups inconsistent the error must not depend on
+		// the order in which the groups are visited
+		_, e1 := ConcatMessages(msgs)
+		_, e2 := ConcatMessages(msgs)
+		vassert(e1 != nil && e2 != nil && e1.Error() == e2.Error(), "the same chunk sequence is refused with the same error every time")
 		return
 	}
 	vassert(all != nil && len(all.ToolCalls) == 2, "fragments with consistent types per index concatenate to one call per index")
